@@ -66,7 +66,9 @@ def hist(d, key):
 WSEEDS = [b'', b'\\\\?\\UNC\\s\\sh', b'\\\\?\\UNC\\s', b'\\\\?\\UNC\\', b'\\\\?\\UNC', b'//?/UNC/s/sh', b'\\\\?\\', b'\\\\.\\',
           b'\\\\?\\C:', b'\\\\?\\c:', b'\\\\s\\sh', b'//s/sh', b'\\\\s', b'C:', b'c:', b'\\\\?\\pic', b'//./dev', b'\\\\?/C:',
           b'\\\\.\\COM1', b'\\/?\\x', b'/\\s/sh', b'\\\\?\\UNC/s', b'z:', b'\\\\?\\UNC\\s\\sh\\', b'\\\\?\\C:\\', b'C:\\', b'C:/', b'\\',
-          b'/', b'\\\\?\\\\', b'//?/C:', b'\\\\.\\dev\\', b'\\\\s\\sh\\']
+          b'/', b'\\\\?\\\\', b'//?/C:', b'\\\\.\\dev\\', b'\\\\s\\sh\\',
+          # prefixes whose last byte is ':' without being a drive (a join must still add a separator after them)
+          b'\\\\.\\C:', b'\\\\.\\COM1:', b'\\\\s\\C:', b'\\\\s\\sh:', b'\\\\?\\UNC\\s\\C:', b'\\\\?\\pic:', b'//./C:']
 WALPHA4 = [0x5c, 0x2f, 0x2e, 0x61]
 WALPHA7 = [0x5c, 0x2f, 0x2e, 0x3a, 0x3f, 0x61, 0x43]
 UALPHA4 = [0x2f, 0x2e, 0x61, 0x62]
